@@ -247,6 +247,19 @@ func c17ParseRun(c *mon.Ctx, i int) {
 				}
 			}
 		}
+		// (3b) a byte that cannot stand inside a bare rule name (a double quote, a control byte)
+		if k%4 == 1 {
+			name := mon.Pick(r, []string{"min", "max", "optional", "nullable", "minLength", "type", "const", "exclusiveMinimum"})
+			val := map[string]string{"min": "1", "max": "9", "optional": "true", "nullable": "false", "minLength": "1", "type": "\"integer\"", "const": "true", "exclusiveMinimum": "true"}[name]
+			lit := mon.Pick(r, []string{"5", "\"abc\"", "true"})
+			head := mon.Pick(r, []string{lit + " // {", lit + " /* {", "{\n  \"k\": " + lit + " // {nullable: true, ", "[\n  " + lit + " /* {\n    "})
+			at := len(head) + r.Range(1, len(name)-1)
+			text := head + name + ": " + val + "}"
+			fault := mon.Pick(r, []string{"\"", "\x01", "\""})
+			t := text[:at] + fault + text[at:]
+			c.Count("parse: byte that cannot stand inside a bare rule name", 1)
+			c17ParseJudge(c, "schema", t, refjson.Result{ErrOffset: at})
+		}
 		// (4) type shortcuts: a union cut right after a bar (or after the blank behind it) ends early
 		if k%4 == 0 {
 			names := []string{"@cat", "@dog", "@a1", "@pet_2"}
@@ -710,6 +723,56 @@ func c17TypeRun(c *mon.Ctx, i int) {
 					{Name: "@zparent", Root: parent},
 				},
 			}
+		}
+		if k%6 == 5 {
+			// a literal example declares {type: "@T"} (or an or rule naming @T alone): the type is
+			// fine, the EXAMPLE breaks one of its rules - the fault is the literal in the text that
+			// holds it, not anything in the type's own (padded) text
+			typeText, bad := "", (*model.Node)(nil)
+			var tdef *model.TypeDef
+			switch r.Intn(3) {
+			case 0:
+				tdef = &model.TypeDef{Name: "@id", Root: model.Str("abcdef").With(model.RInt("minLength", 4))}
+				bad = model.Str("ab").With(model.RStr("type", "@id"))
+			case 1:
+				tdef = &model.TypeDef{Name: "@id", Root: model.Int("50").With(model.RNum("min", "10"))}
+				bad = model.Int("5").With(model.RStr("type", "@id"))
+			default:
+				tdef = &model.TypeDef{Name: "@id", Root: model.Str("k1").With(model.RStr("regex", "^k[0-9]$"))}
+				bad = model.Str("zz").With(model.RStr("type", "@id"))
+			}
+			_ = typeText
+			holder := model.Obj(model.P("pad", model.Str("some padding so that offsets differ")), model.P("id", bad), model.P("n", model.Int("1")))
+			s = &model.Schema{Types: []*model.TypeDef{tdef}}
+			owner := "root"
+			if r.Bool() {
+				s.Root = mon.Pick(r, []*model.Node{holder, model.Arr(holder), model.Obj(model.P("deep", model.Obj(model.P("er", holder))))})
+			} else {
+				// the example stands in another added type
+				owner = "@holder"
+				s.Types = append(s.Types, &model.TypeDef{Name: "@holder", Root: holder})
+				s.Root = mon.Pick(r, []*model.Node{model.Ref("@holder"), model.Obj(model.P("h", model.Ref("@holder")))})
+			}
+			sp := specOf(s, model.Style{})
+			// the type's own text starts with blanks / a comment line: its offsets are not the example's
+			for ti := range sp.Types {
+				if sp.Types[ti].Name == "@id" {
+					sp.Types[ti].Text = mon.Pick(r, []string{"   ", "\n\n", "# the id\n"}) + sp.Types[ti].Text
+				}
+			}
+			sp.UnnamedFiles = r.Chance(1, 4)
+			sch, obs := lib.Build(sp)
+			if obs.OK {
+				obs = lib.Safe(sch.Check)
+			}
+			c.Eval(1)
+			c.Count("type positions compared (example breaking a rule of the type it declares)", 1)
+			got := c17TypeObserve(obs, c17OwnerText(sp, owner))
+			exp := c17TypeExpected(sp, owner, bad.Pos)
+			if got != exp {
+				c.Violate("type-pos", c17TypeCase{sp, owner}, exp, got, "an example that breaks a rule of the type it declares is not reported at the example")
+			}
+			continue
 		}
 		if k%6 == 3 {
 			// an INHERITED key shortcut whose type is not a string type (or was not added): the
